@@ -79,10 +79,22 @@ func (e *Eng) funcEnv(fr *Frame) *Env {
 				tgt[id.Name][d.X] = true
 			}
 		}
+		fr.nameCands = map[string][]ssa.Value{}
 		for n, set := range vals {
 			if len(set) == 1 {
 				for v := range set {
 					fr.locals[n] = v
+				}
+			} else {
+				for v := range set {
+					fr.nameCands[n] = append(fr.nameCands[n], v)
+				}
+			}
+		}
+		for _, b := range fr.fn.Blocks {
+			for _, ins := range b.Instrs {
+				if p, ok := ins.(*ssa.Phi); ok && p.Comment != "" {
+					fr.nameCands[p.Comment] = append(fr.nameCands[p.Comment], p)
 				}
 			}
 		}
@@ -114,6 +126,40 @@ func (e *Eng) funcEnv(fr *Frame) *Env {
 		}
 		if val, ok := fr.vals[v]; ok {
 			env.vars[n] = val
+		}
+	}
+	// variables assigned more than once: the definition that reaches the current block, i.e. the candidate
+	// (a phi carrying the variable's name, or a value go/ssa recorded for it) defined in the closest dominator
+	if fr.curBlock != nil {
+		for n, cands := range fr.nameCands {
+			if _, taken := env.vars[n]; taken {
+				continue
+			}
+			var best ssa.Value
+			bestDepth := -1
+			for _, c := range cands {
+				ins, ok := c.(ssa.Instruction)
+				if !ok {
+					continue
+				}
+				db := ins.Block()
+				if db == nil || !(db == fr.curBlock || db.Dominates(fr.curBlock)) {
+					continue
+				}
+				if _, defined := fr.vals[c]; !defined {
+					continue
+				}
+				d := domDepth(db)*2 + 0
+				if _, isPhi := c.(*ssa.Phi); isPhi && db == fr.curBlock {
+					d++
+				}
+				if d > bestDepth {
+					best, bestDepth = c, d
+				}
+			}
+			if best != nil {
+				env.vars[n] = fr.vals[best]
+			}
 		}
 	}
 	return env
